@@ -698,3 +698,23 @@ Definition copy_sds_moves (dims : list Z) (eltsz buf flags comp : Z) : option (l
   else Some (cells_of dims (one_piece copy_sds_start copy_sds_edge dims)).
 
 Definition copy_gr_moves (dims : list Z) : list Z := cells_of dims (one_piece copy_gr_start copy_gr_edge dims).
+
+(** * Which calls are reached (round 4)
+
+    [copy_gr_writelut_guards]: the conditions enclosing GRwritelut in copy_gr; [list_glb_exits_before_gr_attrs]: the
+    conditions of the early exits of list_glb that precede the copy of the GR file attributes; [has_gr_elems]: the test
+    that decides whether the GR interface is started on the output file. *)
+Fixpoint ends_with (suffix s : str) : bool :=
+  str_eqb s suffix || match s with [] => false | _ :: r => ends_with suffix r end.
+
+Definition txt_has_pal : str := [104; 97; 115; 95; 112; 97; 108; 61; 61; 49].                       (* has_pal==1 *)
+Definition txt_trip0 : str := [111; 112; 116; 105; 111; 110; 115; 45; 62; 116; 114; 105; 112; 61; 61; 48].  (* options->trip==0 *)
+Definition txt_eq_fail : str := [61; 61; 70; 65; 73; 76].                                           (* ==FAIL *)
+Definition txt_lt0 : str := [60; 48].                                                               (* <0 *)
+
+(** an early exit that is taken only on the inspection trip or when a library / copy call reports failure *)
+Definition benign_exit (c : str) : bool :=
+  str_eqb c txt_trip0 || (existsb (Z.eqb 40) c && (ends_with txt_eq_fail c || ends_with txt_lt0 c)).
+
+Definition only_guard (g : list str) (c : str) : bool :=
+  match g with [x] => str_eqb x c | _ => false end.
